@@ -173,7 +173,7 @@ var aftTypeNums = []int{1, 2, 3, 4, 5, 6}
 
 var (
 	v4Prefixes = []string{"1.0.0.0/8", "10.1.0.0/16", "192.0.2.0/24", "198.51.100.7/32"}
-	v6Prefixes = []string{"2001:db8::/32", "2001:db8:1::/48", "::/0"}
+	v6Prefixes = []string{"2001:db8::/32", "2001:db8:1::/48", "::/0", "2001:DB8:2::/48"} // the last one: valid, but not the canonical (lower-case) spelling
 	labels     = []uint64{100, 200, 1048575}
 )
 
@@ -654,9 +654,54 @@ func (g *gen) shape() [][]*spb.AFTOperation {
 		e1 := top(ni, spb.AFTOperation_ADD, gA, nil, nil)
 		out = append(out, []*spb.AFTOperation{nh(ni, nhA), grp(ni, gA, spb.AFTOperation_ADD, nhA), e1})
 		gMissing := gA%4 + 1
+		if g.chance(1, 2) {
+			gMissing = 5 + uint64(g.pick(2)) // outside the everyday key space: certainly not installed yet
+		}
+		// further entries (other keys, possibly other instances) held on the same missing group: the doomed
+		// REPLACE fails somewhere in the middle of the walk that releases them
+		var fellows []*spb.AFTOperation
+		kind0 := kind
+		if g.chance(2, 3) {
+			seen := map[string]bool{}
+			if _, en, _ := (&Model{NIs: map[string]bool{ni: true}}).Analyse(e1); en != nil {
+				seen[en.Key.String()] = true
+			}
+			for tries := 0; len(fellows) < 2+g.pick(5) && tries < 40; tries++ {
+				eni := g.ni()
+				kind = []Kind{KV4, KV6, KMPLS}[g.pick(3)]
+				var ref *wpb.StringValue
+				if eni != ni || g.chance(1, 3) {
+					ref = sv(ni)
+				}
+				f := top(eni, spb.AFTOperation_ADD, gMissing, ref, nil)
+				_, en, _ := (&Model{NIs: map[string]bool{eni: true, ni: true}}).Analyse(f)
+				if en == nil || seen[en.Key.String()] {
+					continue
+				}
+				seen[en.Key.String()] = true
+				fellows = append(fellows, f)
+			}
+		}
+		kind = kind0
+		cutAt := 0
+		if len(fellows) > 0 {
+			cutAt = g.pick(len(fellows) + 1)
+			if cutAt > 0 {
+				out = append(out, fellows[:cutAt])
+			}
+		}
 		out = append(out, []*spb.AFTOperation{top(ni, spb.AFTOperation_REPLACE, gMissing, nil, e1)})
+		if cutAt < len(fellows) {
+			out = append(out, fellows[cutAt:])
+		}
 		out = append(out, []*spb.AFTOperation{del(e1)})
-		out = append(out, []*spb.AFTOperation{nh(ni, nhB), grp(ni, gMissing, spb.AFTOperation_ADD, nhB)})
+		if g.chance(1, 2) {
+			// the missing group is the FIRST install after the delete (its next-hop is there already): the walk
+			// that releases the fellows is also the one in which the doomed REPLACE is retried and fails
+			out = append(out, []*spb.AFTOperation{grp(ni, gMissing, spb.AFTOperation_ADD, nhA)})
+		} else {
+			out = append(out, []*spb.AFTOperation{nh(ni, nhB), grp(ni, gMissing, spb.AFTOperation_ADD, nhB)})
+		}
 		if g.chance(1, 2) {
 			out = append(out, []*spb.AFTOperation{top(ni, spb.AFTOperation_ADD, gMissing, nil, e1)})
 		}
@@ -878,7 +923,7 @@ func genG1(seed uint64, prop string) *Scenario {
 					continue
 				}
 			}
-			if g.chance(1, 5) {
+			if g.chance(1, 5) || ((prop == "C02" || prop == "C06") && g.chance(1, 5)) {
 				for _, req := range g.shape() {
 					sc.Steps = append(sc.Steps, g.batchStep(sess, req))
 				}
